@@ -22,7 +22,8 @@ def run(ctx):
     ctx.not_claimed(_pipe.OUTSIDE)
     C = []
     ks = [34, 37, 12] if q else [34, 37, 12, 3, 25, 15, 0, 5, 28]
-    C += PC.text_holes(ctx, own, ks, clauses='c13', timeout=600 if q else 2400)
+    if not q:
+        C += PC.text_holes(ctx, own, ks, clauses='c13', timeout=600 if q else 2400)
     C += PC.spell_holes(ctx, own, [0, 10] if q else range(len(P.SPELL)), clauses='c13', alpha='lOIaifn_')
-    C += PC.label_holes(ctx, own, [18, 0] if q else range(len(P.SKELS)), vis=(4,) if q else (0, 4, 8))
+    C += PC.label_holes(ctx, own, [18, 9, 10] if q else range(len(P.SKELS)), vis=(4,) if q else (0, 4, 8))
     xh.run_conditions(ctx, C)
